@@ -435,7 +435,7 @@ pub fn recursion_probes(target: &str) -> (u64, Vec<Violation>) {
 pub fn run(thorough: bool) -> Report {
     let mut rep = Report::new("C01", "model_checking");
     let alpha = alphabet();
-    let depth = if thorough { 6 } else { 4 };
+    let depth = if thorough { 5 } else { 4 };
     let mk = || Sess::new();
     // "still accepts lines": in every distinct idle state a plain statement runs
     let accepts = |hist: &[Ev], snap: &abasic_core::verif::VerifState| -> Vec<Violation> {
